@@ -235,6 +235,7 @@ pub fn run(args: &[String]) {
                 continue;
             }
             let mut ctx = Context::default();
+            if ctx_parity_odd(&rec["nodes"]) { precreate_leaves_reversed(&mut ctx, &rec["nodes"]); }
             let refs = import(&mut ctx, &rec["nodes"]);
             let root = refs[rec["root"].as_u64().unwrap() as usize - 1];
             let r = eval_record(&mut ctx, &mut rng, root, &format!("g{i}"), nrand, true);
